@@ -811,14 +811,16 @@ static bool call_external(State &s, const CallInst *ci, const std::string &name,
   if (name == "abort") { violation(s, "abort", "abort() called", nullptr); throw PathEnd{"abort"}; }
   if (name == "exit" || name == "_exit")
   {
-    uint64_t code = concretize(s, args[0], 256, "exit status");
-    s.notes.push_back(Note{"exit", mk_int(32, code), "", false});
+    // the status may be symbolic (e.g. a simulated program's exit code): it is passed on as it is
+    Val codev = args[0];
+    uint64_t code = codev.conc ? codev.c : 0;
+    s.notes.push_back(Note{"exit", codev, "", false});
     if (EXIT_HOOK_OBJ >= 0 && !s.exited)
     {
       s.exited = true; s.exit_code = (int)code;
       const Function *hook = func_obj[EXIT_HOOK_OBJ];
       s.stack.clear();
-      push_frame(s, hook, {mk_int(32, code)}, nullptr);
+      push_frame(s, hook, {codev}, nullptr);
       return true;
     }
     s.exited = true; s.exit_code = (int)code;
